@@ -17,8 +17,25 @@ pub fn check(r: &RunResult, rep: &mut Report) {
 	// (1) every renewal attempt terminates: the executor's deadlock / livelock detectors
 	for o in r.outcomes.iter() {
 		if o == "Deadlock" || o == "Livelock" {
-			let open: Vec<String> = common::attempts(w).iter().filter(|a| a.end.is_none()).map(|a| a.cert.clone()).collect();
-			rep.add(Violation::new("C12", if o == "Deadlock" { "deadlock" } else { "livelock" }, "", "", format!("the daemon can make no progress; attempts still open: {:?}", open)));
+			let open: Vec<String> = common::attempts(w)
+				.iter()
+				.filter(|a| a.end.is_none())
+				.map(|a| a.cert.clone())
+				.collect();
+			rep.add(Violation::new(
+				"C12",
+				if o == "Deadlock" {
+					"deadlock"
+				} else {
+					"livelock"
+				},
+				"",
+				"",
+				format!(
+					"the daemon can make no progress; attempts still open: {:?}",
+					open
+				),
+			));
 		}
 	}
 	let fault_free = w.plan.faults.is_empty();
@@ -26,10 +43,27 @@ pub fn check(r: &RunResult, rep: &mut Report) {
 		// fault-free plans are sized so that every certificate completes its attempts
 		let atts = common::attempts(w);
 		let last_boot = atts.iter().map(|a| a.boot).max().unwrap_or(0);
-		for a in atts.iter().filter(|a| a.end.is_none() && a.boot == last_boot) {
-			let cut = w.trace.iter().any(|e| e.seq > a.begin.seq && matches!(&e.ev, Ev::Stopped { why } if why == "stop" || why == "crash"));
+		for a in atts
+			.iter()
+			.filter(|a| a.end.is_none() && a.boot == last_boot)
+		{
+			let cut = w.trace.iter().any(|e| {
+				e.seq > a.begin.seq
+					&& matches!(&e.ev, Ev::Stopped { why } if why == "stop" || why == "crash")
+			});
 			if !cut && (w.mono - a.begin.t) > 20_000 * 1_000_000_000 {
-				rep.add(Violation::new("C12", "attempt_never_terminated", "", &common::last_class_in(w, a), format!("{} began at {} s and was still running at {} s", a.cert, a.begin.t / 1_000_000_000, w.mono / 1_000_000_000)));
+				rep.add(Violation::new(
+					"C12",
+					"attempt_never_terminated",
+					"",
+					&common::last_class_in(w, a),
+					format!(
+						"{} began at {} s and was still running at {} s",
+						a.cert,
+						a.begin.t / 1_000_000_000,
+						w.mono / 1_000_000_000
+					),
+				));
 			}
 		}
 	}
@@ -38,7 +72,10 @@ pub fn check(r: &RunResult, rep: &mut Report) {
 		// unknown (or the external binding changed)
 		let mut by_key: BTreeMap<String, Vec<&super::super::ca::NewAccountRec>> = BTreeMap::new();
 		for na in ca.new_accounts.iter() {
-			by_key.entry(na.thumb.clone()).or_insert_with(Vec::new).push(na);
+			by_key
+				.entry(na.thumb.clone())
+				.or_insert_with(Vec::new)
+				.push(na);
 		}
 		for (thumb, list) in by_key.iter() {
 			rep.probe("c12.account_keys_seen", 1);
@@ -49,8 +86,16 @@ pub fn check(r: &RunResult, rep: &mut Report) {
 					true
 				} else {
 					// a distinct earlier accountDoesNotExist answer for an account of this key
-					let acct_ids: Vec<usize> = ca.accounts.iter().filter(|a| a.key_history.iter().any(|(_, t)| t == thumb)).map(|a| a.id).collect();
-					let pay = ca.does_not_exist.iter().find(|(tx, a)| *tx < na.tx && acct_ids.contains(a) && !paid.contains(tx));
+					let acct_ids: Vec<usize> = ca
+						.accounts
+						.iter()
+						.filter(|a| a.key_history.iter().any(|(_, t)| t == thumb))
+						.map(|a| a.id)
+						.collect();
+					let pay = ca
+						.does_not_exist
+						.iter()
+						.find(|(tx, a)| *tx < na.tx && acct_ids.contains(a) && !paid.contains(tx));
 					match pay {
 						Some((tx, _)) => {
 							paid.push(*tx);
@@ -72,7 +117,20 @@ pub fn check(r: &RunResult, rep: &mut Report) {
 				if let NonceState::Consumed { by_tx } = p.nonce_state {
 					let other = ca.posts.iter().find(|q| q.tx == by_tx);
 					let same_cert = other.map(|q| q.cert == p.cert).unwrap_or(false);
-					rep.add(Violation::new("C12", "nonce_reused", if same_cert { "same_certificate" } else { "across_certificates" }, &p.class, format!("nonce {:?} of tx {} was consumed by tx {}", p.nonce, p.tx, by_tx)));
+					rep.add(Violation::new(
+						"C12",
+						"nonce_reused",
+						if same_cert {
+							"same_certificate"
+						} else {
+							"across_certificates"
+						},
+						&p.class,
+						format!(
+							"nonce {:?} of tx {} was consumed by tx {}",
+							p.nonce, p.tx, by_tx
+						),
+					));
 				}
 			}
 		}
